@@ -35,7 +35,7 @@ import (
 )
 
 type connPlan struct {
-	Phase  string `json:"phase"`  // fresh parthead upstream writeblocked keepalive tunnel tundial pphdr tlshello
+	Phase  string `json:"phase"`  // fresh parthead upstream writeblocked keepalive tunnel tundial wstunnel wsdial pphdr tlshello tlsclosing
 	After  string `json:"after"`  // send sendconnect release gone stay hdr hs
 	Vanish bool   `json:"vanish"` // the client closes its socket at its phase, before shutdown begins
 }
@@ -87,6 +87,22 @@ func startEnv() *env {
 	}
 	e.originAddr = l.Addr().String()
 	go http.Serve(l, http.HandlerFunc(func(w http.ResponseWriter, r *http.Request) { //nolint:errcheck,gosec
+		if strings.EqualFold(r.Header.Get("Upgrade"), "websocket") {
+			// answer 101 and echo whatever comes (a WebSocket as far as the proxy is concerned)
+			hj, ok := w.(http.Hijacker)
+			if !ok {
+				return
+			}
+			c, brw, err := hj.Hijack()
+			if err != nil {
+				return
+			}
+			defer c.Close()
+			brw.WriteString("HTTP/1.1 101 Switching Protocols\r\nConnection: Upgrade\r\nUpgrade: websocket\r\n\r\n") //nolint:errcheck
+			brw.Flush()
+			io.Copy(c, brw) //nolint:errcheck
+			return
+		}
 		w.Header().Set("Content-Length", "2")
 		io.WriteString(w, "ok") //nolint:errcheck
 	}))
@@ -158,6 +174,11 @@ func (r *runner) obs(o cliObs) {
 	r.mu.Unlock()
 }
 
+func (r *runner) wsText(id int) string {
+	return fmt.Sprintf("GET http://%s/ws HTTP/1.1\r\nHost: %s\r\n%s: %d\r\nConnection: Upgrade\r\nUpgrade: websocket\r\nUser-Agent: c11\r\n\r\n",
+		r.e.originAddr, r.e.originAddr, gaterig.ConnHeader, id)
+}
+
 func (r *runner) reqText(id int, connect bool) string {
 	if connect {
 		return fmt.Sprintf("CONNECT tunnel.test:443 HTTP/1.1\r\nHost: tunnel.test:443\r\n%s: %d\r\n\r\n", gaterig.ConnHeader, id)
@@ -192,6 +213,30 @@ func (r *runner) recv(c *cli, connect bool) (ok bool) {
 	r.obs(cliObs{Conn: c.id, What: "response", Status: resp.StatusCode, Full: full, CloseHdr: closeHdr})
 	r.rig.Log.Add(gaterig.Ev{K: "CliResp", Conn: c.id, A: full && resp.StatusCode == 200, B: closeHdr})
 	return true
+}
+
+// recvStatus reads a header-only response and checks its status (101 for an upgrade).
+func (r *runner) recvStatus(c *cli, want int) bool {
+	c.c.SetReadDeadline(time.Now().Add(1500 * time.Millisecond))
+	defer c.c.SetReadDeadline(time.Time{})
+	resp, err := http.ReadResponse(c.br, nil)
+	if err != nil {
+		eof := err == io.EOF || strings.Contains(err.Error(), "EOF") || strings.Contains(err.Error(), "reset")
+		r.obs(cliObs{Conn: c.id, What: "no-response", EOF: eof})
+		if eof {
+			r.rig.Log.Add(gaterig.Ev{K: "CliEOF", Conn: c.id})
+		}
+		return false
+	}
+	closeHdr := false
+	for _, v := range resp.Header.Values("Connection") {
+		if strings.Contains(strings.ToLower(v), "close") {
+			closeHdr = true
+		}
+	}
+	r.obs(cliObs{Conn: c.id, What: "response", Status: resp.StatusCode, Full: resp.StatusCode == want, CloseHdr: closeHdr})
+	r.rig.Log.Add(gaterig.Ev{K: "CliResp", Conn: c.id, A: resp.StatusCode == want, B: closeHdr})
+	return resp.StatusCode == want
 }
 
 // expectEOF waits for the proxy to close the client's socket.
@@ -352,6 +397,20 @@ func runScenario(sc scenario, e *env) (res result) {
 			rig.GateRT(i)
 			c.c.Write([]byte(r.reqText(i, true))) //nolint:errcheck
 			r.waitEv("Fwd", i, 1)
+		case "wstunnel":
+			// a WebSocket: upgrade request, 101, one echo through the tunnel
+			c.c.Write([]byte(r.wsText(i))) //nolint:errcheck
+			if r.recvStatus(c, 101) {
+				c.c.Write([]byte("ping\n")) //nolint:errcheck
+				c.c.SetReadDeadline(time.Now().Add(time.Second))
+				line, _ := c.br.ReadString('\n')
+				c.c.SetReadDeadline(time.Time{})
+				r.obs(cliObs{Conn: i, What: "ws echo " + strings.TrimSpace(line), Full: line == "ping\n"})
+			}
+		case "wsdial":
+			rig.GateRT(i)
+			c.c.Write([]byte(r.wsText(i))) //nolint:errcheck
+			r.waitEv("Fwd", i, 1)
 		}
 		if p.Vanish {
 			r.vanish(c)
@@ -476,6 +535,12 @@ func runScenario(sc scenario, e *env) (res result) {
 				if r.recv(c, true) {
 					r.expectEOF(c)
 				}
+			case "wsdial":
+				// the 101 comes back while closing: it is written with Connection: close and no tunnel starts
+				rig.ReleaseRT(i)
+				if r.recvStatus(c, 101) {
+					r.expectEOF(c)
+				}
 			}
 		case "gone":
 			r.vanish(c)
@@ -574,7 +639,8 @@ func runScenario(sc scenario, e *env) (res result) {
 	// every client that is still there looks at its socket once more
 	for _, c := range append(append([]*cli{}, r.clis...), late...) {
 		if !c.gone && c.id >= 0 && gaterig.Count(rig.Log.Events(), "CliEOF", c.id) == 0 {
-			tunnel := c.id < len(sc.Conns) && (sc.Conns[c.id].Phase == "tunnel" || sc.Conns[c.id].Phase == "tundial")
+			tunnel := c.id < len(sc.Conns) && (sc.Conns[c.id].Phase == "tunnel" || sc.Conns[c.id].Phase == "tundial" ||
+				sc.Conns[c.id].Phase == "wstunnel" || sc.Conns[c.id].Phase == "wsdial")
 			if tunnel {
 				r.expectEOF(c)
 			} else {
@@ -623,7 +689,7 @@ func (r *runner) vanishAfterKeepAlive(c *cli) {
 
 // ---------------------------------------------------------------- scenarios
 
-var phases = []string{"fresh", "parthead", "upstream", "writeblocked", "keepalive", "tunnel", "tundial"}
+var phases = []string{"fresh", "parthead", "upstream", "writeblocked", "keepalive", "tunnel", "tundial", "wstunnel", "wsdial"}
 
 func aftersOf(phase string) []string {
 	switch phase {
@@ -631,9 +697,9 @@ func aftersOf(phase string) []string {
 		return []string{"send", "sendconnect", "gone", "stay"}
 	case "parthead":
 		return []string{"send", "gone", "stay"}
-	case "upstream", "writeblocked", "tundial":
+	case "upstream", "writeblocked", "tundial", "wsdial":
 		return []string{"release", "gone", "stay"}
-	case "tunnel":
+	case "tunnel", "wstunnel":
 		return []string{"gone", "stay"}
 	case "pphdr":
 		return []string{"hdr", "gone", "stay"}
@@ -719,7 +785,7 @@ func genScenarios(tier string, r *rng.R) []scenario {
 			as := aftersOf(ph)
 			a := as[r.Intn(len(as))]
 			van := r.Chance(1, 6) && a != "send" && a != "sendconnect" && a != "hdr" && a != "hs" && ph != "pphdr" && ph != "tlshello" && ph != "tlsclosing"
-			gated := ph == "upstream" || ph == "writeblocked" || ph == "tundial" || ph == "tlsclosing"
+			gated := ph == "upstream" || ph == "writeblocked" || ph == "tundial" || ph == "wsdial" || ph == "tlsclosing"
 			if a == "stay" && (!van || gated) {
 				stay = true // this connection keeps Shutdown waiting (a held step stays held even if the client left)
 			}
@@ -757,7 +823,7 @@ func coqBool(b bool) string {
 // coqLabel renders one event as a label of Shutdown.v ("" = not a label of the LTS).
 func coqLabel(e gaterig.Ev) string {
 	switch e.K {
-	case "Acc", "TlsConn", "HsDone", "Addr", "FirstByte", "Fwd", "RTLeave", "WrCall", "SockClose", "SockCloseC", "ClientGone":
+	case "Acc", "TlsConn", "HsDone", "Addr", "FirstByte", "Fwd", "RTLeave", "RTLeaveUp", "WrCall", "SockClose", "SockCloseC", "ClientGone":
 		return fmt.Sprintf("%s %d", e.K, e.Conn)
 	case "ReqRead":
 		k := map[string]string{"err": "RErr", "ok": "ROk", "connect": "RConnect"}[e.S]
